@@ -146,6 +146,7 @@ func runProgProperty(pid, outDir string, seed int64, tier string, gen func(r *rn
 	}
 	if workerFrom >= 0 {
 		debug.SetMaxStack(48 << 20)
+		limitMemory(3 << 30)
 		r := &rng{s: uint64(seed) ^ hashString(pid)}
 		w := bufio.NewWriter(os.Stdout)
 		for id := 0; id < n; id++ {
@@ -193,8 +194,28 @@ func runProgProperty(pid, outDir string, seed int64, tier string, gen func(r *rn
 		sc.Buffer(make([]byte, 1<<20), 64<<20)
 		current := -1
 		last := from - 1
+		// watchdog: a case that does not finish within 10 s of wall-clock time (a Go-level loop that
+		// never polls the context, memory exhaustion ...) gets its worker killed and is dropped
+		beat := make(chan struct{}, 1024)
+		stop := make(chan struct{})
+		go func() {
+			for {
+				select {
+				case <-beat:
+				case <-stop:
+					return
+				case <-time.After(10 * time.Second):
+					cmd.Process.Kill()
+					return
+				}
+			}
+		}()
 		for sc.Scan() {
 			line := sc.Text()
+			select {
+			case beat <- struct{}{}:
+			default:
+			}
 			if strings.HasPrefix(line, "@@BEGIN ") {
 				fmt.Sscan(line[8:], &current)
 				continue
@@ -229,6 +250,7 @@ func runProgProperty(pid, outDir string, seed int64, tier string, gen func(r *rn
 			}
 			cases = append(cases, cl.Coq)
 		}
+		close(stop)
 		err := cmd.Wait()
 		if err == nil && last >= n-1 {
 			break
@@ -365,6 +387,9 @@ func runC11(outDir string, seed int64, tier string) {
 					tmpl = gv(0)
 				}
 				pc.prog.query = gc(which, tmpl, goal, gv(3))
+				if r.coin(0.3) {
+					pc.prog.query = gc(",", gc("=", gv(9), goal), gc(which, tmpl, gv(9), gv(3)))
+				}
 				return pc
 			}
 			which := []string{"findall", "bagof", "setof"}[r.intn(3)]
@@ -398,6 +423,15 @@ func runC11(outDir string, seed int64, tier string) {
 				goal = wrapped
 			}
 			pc.prog.query = gc(which, tmpl, goal, inst)
+			if which != "findall" && r.coin(0.3) {
+				// the goal reaches bagof/setof through a variable bound at call time
+				mv := gv(9)
+				if goal.K == 'c' && goal.S == "^" && r.coin(0.5) {
+					pc.prog.query = gc(",", gc("=", mv, goal.Args[1]), gc(which, tmpl, gc("^", goal.Args[0], mv), inst))
+				} else {
+					pc.prog.query = gc(",", gc("=", mv, goal), gc(which, tmpl, mv, inst))
+				}
+			}
 		}
 		return pc
 	}, 1000, 8000,
